@@ -11,4 +11,17 @@
 #define GIT_EQ(a, b) ((_Bool)((a) == (b)))
 #define GIT_PREINC(pit) (++*(pit), (pit))
 #define GIT_DEREF(it) (it)
+/* growing operations against a fixed modelled capacity (growth itself is not modelled) */
+#ifdef VERIF_CBMC
+#define GVEC_ASSERT(c, msg) __CPROVER_assert(c, "std::vector model: " msg)
+#else
+#define GVEC_ASSERT(c, msg) ((c) ? (void)0 : verif_assert_fail("std::vector model: " msg))
+#endif
+#define GVEC_PUSH_BACK(v, px) (GVEC_ASSERT((v)->len < (v)->cap, "push_back within modelled capacity"), (v)->data[(v)->len] = *(px), (void)(v)->len++)
+/* std::reverse on element pointers [first, last) of a char vector */
+static inline void gvec_reverse_char(char *first, char *last)
+{
+  while (first < last && first < --last)
+    { char t = *first; *first = *last; *last = t; ++first; }
+}
 #endif
